@@ -27,22 +27,33 @@ Section props.
       w_alive w' = true /\ w_stopping w' = w_stopping w.
   Proof. exact (handle_plain view payload dispatch). Qed.
 
-  (** 1b. SoftStop: one Processing notice now, the final OK when the sessions
-      have drained; HardStop: the notice and the final OK at once. *)
+  (** 1b. Stops.  A SoftStop is put on hold (one Processing notice) and gets
+      its final OK when the sessions have drained; a second SoftStop arriving
+      meanwhile is refused at once and does not take the place of the first; a
+      HardStop answers the soft stop on hold (failure), then itself (notice +
+      OK), and the worker ends. *)
   Theorem soft_stop_answers : forall (w : worker view) (r : request payload) o w' out,
-      w_alive w = true -> r_name r = "SoftStop" ->
+      w_alive w = true -> r_name r = "SoftStop" -> w_stopping w = None ->
       handle dispatch w r o = (w', out) ->
       out = [mkResp (r_id r) SProcessing] /\ w_alive w' = true /\ w_stopping w' = Some (r_id r) /\
       snd (step dispatch w' EDrained) = [mkResp (r_id r) SOk].
   Proof.
-    intros w r o w' out Ha Hn H. destruct (handle_soft view payload dispatch _ _ _ _ _ Ha Hn H) as [A [B C]].
+    intros w r o w' out Ha Hn Hs H. destruct (handle_soft view payload dispatch _ _ _ _ _ Ha Hn Hs H) as [A [B C]].
     repeat split; try assumption. cbn [step]. rewrite B, C. reflexivity.
   Qed.
+
+  Theorem second_soft_stop_is_refused : forall (w : worker view) (r : request payload) o w' out sid,
+      w_alive w = true -> r_name r = "SoftStop" -> w_stopping w = Some sid ->
+      handle dispatch w r o = (w', out) ->
+      out = [mkResp (r_id r) SFailure] /\ w' = w.
+  Proof. exact (handle_soft_again view payload dispatch). Qed.
 
   Theorem hard_stop_answers : forall (w : worker view) (r : request payload) o w' out,
       w_alive w = true -> r_name r = "HardStop" ->
       handle dispatch w r o = (w', out) ->
-      out = [mkResp (r_id r) SProcessing; mkResp (r_id r) SOk] /\ w_alive w' = false /\ w_stopping w' = w_stopping w.
+      out = mkResp (r_id r) SProcessing ::
+            (match w_stopping w with Some sid => [mkResp sid SFailure] | None => [] end) ++ [mkResp (r_id r) SOk] /\
+      w_alive w' = false /\ w_stopping w' = None.
   Proof. exact (handle_hard view payload dispatch). Qed.
 
   (** 1c. Over any sequence of requests with distinct ids (and drain events
@@ -52,6 +63,20 @@ Section props.
       w_stopping w = None -> NoDup (flat_map (req_id_of payload) es) ->
       finals id (snd (run dispatch w es)) <= 1.
   Proof. exact (one_final_answer_seq view payload dispatch). Qed.
+
+  (** 1d. Exactly one: over any sequence with distinct ids, once no soft stop is
+      on hold — in particular once the worker has ended, whichever way — every
+      request it served has had its one final answer. *)
+  Theorem every_served_request_is_answered : forall es (w : worker view) w' out r,
+      w_stopping w = None -> NoDup (flat_map (req_id_of payload) es) ->
+      run dispatch w es = (w', out) -> w_stopping w' = None ->
+      In r (served view payload dispatch w es) -> finals (r_id r) out = 1.
+  Proof. exact (every_served_request_answered view payload dispatch). Qed.
+
+  Theorem ended_worker_owes_nothing : forall es (w : worker view),
+      (w_alive w = false -> w_stopping w = None) ->
+      w_alive (fst (run dispatch w es)) = false -> w_stopping (fst (run dispatch w es)) = None.
+  Proof. exact (run_dead_answered view payload dispatch). Qed.
 
   (** 2. The worker's view is the fold of [dispatch] over the requests it
       served, each applied exactly once — provided the variants whose arms can
@@ -95,8 +120,11 @@ Example one_final_answer_nonvacuous :
          EReq (mkReq 4 "ListWorkers" 0) (mkOr 0 0 0 0 (fun _ => false) false true);
          EReq (mkReq 5 "SoftStop" 0) (mkOr 0 0 0 0 (fun _ => false) true true);
          EReq (mkReq 6 "Status" 0) (mkOr 0 0 0 0 (fun _ => false) true true);
+         EReq (mkReq 7 "SoftStop" 0) (mkOr 0 0 0 0 (fun _ => false) true true);
+         EReq (mkReq 8 "HardStop" 0) (mkOr 0 0 0 0 (fun _ => false) true true);
          EDrained;
-         EReq (mkReq 7 "Status" 0) (mkOr 0 0 0 0 (fun _ => false) true true)])
-  = [mkResp 1 SOk; mkResp 2 SFailure; mkResp 3 SOk; mkResp 4 SOk; mkResp 5 SProcessing; mkResp 6 SOk; mkResp 5 SOk]
+         EReq (mkReq 9 "Status" 0) (mkOr 0 0 0 0 (fun _ => false) true true)])
+  = [mkResp 1 SOk; mkResp 2 SFailure; mkResp 3 SOk; mkResp 4 SOk; mkResp 5 SProcessing; mkResp 6 SOk;
+     mkResp 7 SFailure; mkResp 8 SProcessing; mkResp 5 SFailure; mkResp 8 SOk]
   /\ List.length arms_table >= 50.
 Proof. vm_compute. split; [reflexivity|]. repeat constructor. Qed.
